@@ -1,11 +1,13 @@
 ; ---- byte strings as (array, offset, length) triples ----
 (define-fun bytes_eq ((a!arr (Array Int (_ BitVec 8))) (a!off Int) (a!len Int) (b!arr (Array Int (_ BitVec 8))) (b!off Int) (b!len Int)) Bool
   (and (= a!len b!len)
-       (forall ((i Int)) (=> (and (<= 0 i) (< i a!len)) (= (select a!arr (+ a!off i)) (select b!arr (+ b!off i)))))))
+       (forall ((j Int)) (! (=> (and (<= a!off j) (< j (+ a!off a!len))) (= (select a!arr j) (select b!arr (+ b!off (- j a!off))))) :pattern ((select a!arr j))))
+       (forall ((j Int)) (! (=> (and (<= b!off j) (< j (+ b!off b!len))) (= (select b!arr j) (select a!arr (+ a!off (- j b!off))))) :pattern ((select b!arr j))))))
 ; lexicographic strict order with the position of the first difference made explicit
 (define-fun lexlt_at ((a!arr (Array Int (_ BitVec 8))) (a!off Int) (a!len Int) (b!arr (Array Int (_ BitVec 8))) (b!off Int) (b!len Int) (p Int)) Bool
   (and (<= 0 p) (<= p a!len) (<= p b!len)
-       (forall ((i Int)) (=> (and (<= 0 i) (< i p)) (= (select a!arr (+ a!off i)) (select b!arr (+ b!off i)))))
+       (forall ((j Int)) (! (=> (and (<= a!off j) (< j (+ a!off p))) (= (select a!arr j) (select b!arr (+ b!off (- j a!off))))) :pattern ((select a!arr j))))
+       (forall ((j Int)) (! (=> (and (<= b!off j) (< j (+ b!off p))) (= (select b!arr j) (select a!arr (+ a!off (- j b!off))))) :pattern ((select b!arr j))))
        (or (and (= p a!len) (< p b!len))
            (and (< p a!len) (< p b!len) (bvult (select a!arr (+ a!off p)) (select b!arr (+ b!off p)))))))
 (define-fun lexlt ((a!arr (Array Int (_ BitVec 8))) (a!off Int) (a!len Int) (b!arr (Array Int (_ BitVec 8))) (b!off Int) (b!len Int)) Bool
@@ -14,7 +16,8 @@
   (ite (bytes_eq a!arr a!off a!len b!arr b!off b!len) 0 (ite (lexlt a!arr a!off a!len b!arr b!off b!len) (- 1) 1)))
 (define-fun has_prefix ((a!arr (Array Int (_ BitVec 8))) (a!off Int) (a!len Int) (p!arr (Array Int (_ BitVec 8))) (p!off Int) (p!len Int)) Bool
   (and (<= p!len a!len)
-       (forall ((i Int)) (=> (and (<= 0 i) (< i p!len)) (= (select a!arr (+ a!off i)) (select p!arr (+ p!off i)))))))
+       (forall ((j Int)) (! (=> (and (<= a!off j) (< j (+ a!off p!len))) (= (select a!arr j) (select p!arr (+ p!off (- j a!off))))) :pattern ((select a!arr j))))
+       (forall ((j Int)) (! (=> (and (<= p!off j) (< j (+ p!off p!len))) (= (select p!arr j) (select a!arr (+ a!off (- j p!off))))) :pattern ((select p!arr j))))))
 (define-fun has_suffix ((a!arr (Array Int (_ BitVec 8))) (a!off Int) (a!len Int) (p!arr (Array Int (_ BitVec 8))) (p!off Int) (p!len Int)) Bool
   (and (<= p!len a!len)
        (forall ((i Int)) (=> (and (<= 0 i) (< i p!len)) (= (select a!arr (+ a!off (- a!len p!len) i)) (select p!arr (+ p!off i)))))))
@@ -34,3 +37,8 @@
   (ite (= j 0) ((_ extract 63 56) r) (ite (= j 1) ((_ extract 55 48) r) (ite (= j 2) ((_ extract 47 40) r) (ite (= j 3) ((_ extract 39 32) r)
   (ite (= j 4) ((_ extract 31 24) r) (ite (= j 5) ((_ extract 23 16) r) (ite (= j 6) ((_ extract 15 8) r) ((_ extract 7 0) r)))))))))
 (define-fun be64_of ((a!arr (Array Int (_ BitVec 8))) (a!off Int) (a!len Int)) (_ BitVec 64) (be64 a!arr a!off))
+; instantiation hints: uninterpreted predicates; asserting (hint8 t) only makes the term t
+; available to pattern-based quantifier instantiation (it constrains nothing that matters)
+(declare-fun hint8 ((_ BitVec 8)) Bool)
+(declare-fun hint64 ((_ BitVec 64)) Bool)
+(declare-fun hintI (Int) Bool)
